@@ -23,7 +23,7 @@ const (
 )
 
 // c14Guard is the tool-failure guard for one whole execution (never an oracle).
-var c14Guard = 90 * time.Second
+var c14Guard = 240 * time.Second
 
 type c14Proc struct {
 	cmd     *exec.Cmd
